@@ -65,3 +65,17 @@ Print Assumptions C10_walk_all_premises_hold.
 Example C10_walk_no_constraints_is_the_empty_statement : all_cons (kfdc_walk (loop_inst 1)) = [].
 Proof. vm_compute. reflexivity. Qed.
 Print Assumptions C10_walk_no_constraints_is_the_empty_statement.
+(* the same for the cover model: all hypotheses of C10_subset_constraint_realised_in_one_cover_walk / ..._cut_off_no_cover with a
+   non-empty constraint list on the graph with the cycle *)
+Example C10_walk_cover_all_premises_hold :
+  wf_stg (pc_graph loop_cons_kpcc) /\ o_allow_empty (pc_opts loop_cons_kpcc) = false /\ winputs_ok (kpcc_walk loop_cons_kpcc) /\
+  sat loop_cons_sol (encode_kpcc loop_cons_kpcc) /\ all_cons (kpcc_walk loop_cons_kpcc) = [[(0, 0)%N]] /\
+  wrealises_constraints (kpcc_walk loop_cons_kpcc) (Pofw (kpcc_walk loop_cons_kpcc) loop_cons_sol) /\
+  (exists P, cover_admissible loop_cons_kpcc P).
+Proof.
+  split; [exact loopG_wf|]. split; [reflexivity|]. split; [exact loop_cons_kpcc_inputs_ok|]. split; [exact loop_cons_kpcc_feasible|].
+  split; [vm_compute; reflexivity|]. split.
+  - exact (C10_subset_constraint_realised_in_one_cover_walk loop_cons_kpcc loop_cons_sol loopG_wf eq_refl loop_cons_kpcc_inputs_ok loop_cons_kpcc_feasible).
+  - apply (C10_subset_constraint_rows_cut_off_no_cover loop_cons_kpcc loopG_wf eq_refl loop_cons_kpcc_inputs_ok). exists loop_cons_sol. exact loop_cons_kpcc_feasible.
+Qed.
+Print Assumptions C10_walk_cover_all_premises_hold.
